@@ -1,9 +1,10 @@
 (* Model of aws/aws_sign.c.  The four public functions are modelled as INTERPRETATIONS of the
    asprintf format strings, argument lists, strftime formats and buffer sizes, time() error value,
-   SHA256_Buf argument expressions and HMAC chain that the translator regenerates from the C text
-   (Gen/Repo_aws.v).  Written by hand: the order of the steps, the three hexify(x, y, 32) calls, and
-   the meaning given to the accepted length expressions (len_expr_ok, sha_call_ok).
-   Result None = the C function returns -1 / NULL. *)
+   SHA256_Buf / hexify / strdup argument lists and HMAC chain that the translator regenerates from the
+   C text (Gen/Repo_aws.v); locals are known by the names the source gives them.  Written by hand:
+   the order of the steps (the translator refuses a source whose steps come in another order), the
+   parameter names, and the meaning given to the accepted length expressions (len_expr_ok,
+   sha_hex_ok).  Result None = the C function returns -1 / NULL. *)
 From Coq Require Import NArith ZArith List Bool String.
 From LCP Require Import Base.CheckedMem Gen.Repo_codec Gen.Repo_aws Util.Hex Aws.AwsBase Aws.SigV4Spec.
 Import ListNotations.
@@ -45,15 +46,16 @@ Definition len_expr_ok (a : farg) (lenexpr : bytes) : bool :=
   | ALit l => beq_bytes lenexpr (b "strlen(""" ++ l ++ b """)")
   end.
 
-(* the single SHA256_Buf(data, len, out) call of a function must hash the expected object; the
-   accepted length expressions denote the whole object: strlen(creq) for the string creq, and
-   `body ? bodylen : 0` for the (body, bodylen) pair (the body, or nothing when body is NULL).
-   (The name of the output buffer, which only the hand-modelled hexify call reads, is not compared.) *)
-Definition sha_call_ok (calls : list (bytes * bytes * bytes)) (data lenexpr : bytes) : bool :=
-  match calls with
-  | [(d, l, _)] => beq_bytes d data && beq_bytes l lenexpr
-  | _ => false
-  end.
+(* SHA256_Buf(data, len, out); hexify(out, hexname, 32): the hash of the expected object is
+   converted to hex.  The accepted length expressions denote the whole object: strlen(creq) for the
+   string creq, and `body ? bodylen : 0` for the (body, bodylen) pair (the body, or nothing when
+   body is NULL); hexify must read the 32 bytes the hash wrote.  Answers the name that receives
+   the hex string. *)
+Definition sha_hex_ok (sha : bytes * bytes * bytes) (hex : bytes * bytes * N)
+           (data lenexpr : bytes) : option bytes :=
+  let '(d, l, o) := sha in
+  let '(hi, ho, hn) := hex in
+  if beq_bytes d data && beq_bytes l lenexpr && beq_bytes hi o && (hn =? 32) then Some ho else None.
 
 Section Hashes.
   Variable sha256 : bytes -> bytes.
@@ -79,21 +81,27 @@ Section Hashes.
   Definition aws_sign_m (key_secret date datetime region service creq : bytes) : option bytes :=
     let e0 : env := [(b "key_secret", key_secret); (b "date", date); (b "datetime", datetime);
                      (b "region", region); (b "service", service); (b "creq", creq)] in
-    match fmts_aws_sign, hmac_chain with
-    | [f_key; f_sts], [h1; h2; h3; h4; h5] =>
+    match fmts_aws_sign, hmac_chain, sha_calls_aws_sign, hexify_calls_aws_sign with
+    | [f_key; f_sts], [h1; h2; h3; h4; h5], [sh], [x1; (x2i, x2o, x2n)] =>
       match run_asprintf e0 f_key with
       | Some e1 =>
         match run_hmacs e1 [h1; h2; h3; h4] with
         | Some e2 =>
-          match (if sha_call_ok sha_calls_aws_sign (b "creq") (b "strlen(creq)")
-                 then hexify_str (sha256 creq) else None) with
-          | Some hh =>
-            match run_asprintf ((b "hhex_creq", hh) :: e2) f_sts with
-            | Some e3 =>
-              match run_hmac e3 h5 with
-              | Some e4 =>
-                match lookup e4 (b "hmac") with
-                | Some mac => hexify_str mac
+          match sha_hex_ok sh x1 (b "creq") (b "strlen(creq)") with
+          | Some hexname =>
+            match hexify_str (sha256 creq) with
+            | Some hh =>
+              match run_asprintf ((hexname, hh) :: e2) f_sts with
+              | Some e3 =>
+                match run_hmac e3 h5 with
+                | Some e4 =>
+                  (* hexify(mac, sigbuf, 32): the caller's buffer receives the hex of the last HMAC *)
+                  if beq_bytes x2o (b "sigbuf") && (x2n =? 32) then
+                    match lookup e4 x2i with
+                    | Some mac => hexify_str mac
+                    | None => None
+                    end
+                  else None
                 | None => None
                 end
               | None => None
@@ -106,7 +114,7 @@ Section Hashes.
         end
       | None => None
       end
-    | _, _ => None
+    | _, _, _, _ => None
     end.
 
   (* the common prologue: one time() sample (failure when it equals the error value), two strftime
@@ -149,23 +157,34 @@ Section Hashes.
   (* shape shared by the three *_headers functions: returns (x_amz_content_sha256, x_amz_date, authorization) *)
   Definition headers_variant (fmts : list (bytes * bytes * list farg)) (sargs : list farg)
              (ncalls : N) (terr : Z) (tfns : list bytes) (tfmts : list (bytes * N * bytes))
-             (shacalls : list (bytes * bytes * bytes))
+             (shacalls : list (bytes * bytes * bytes)) (hexcalls : list (bytes * bytes * N))
+             (dupcalls : list (bytes * bytes))
              (inputs : env) (body : option bytes) (t : Z) : option (bytes * bytes * bytes) :=
     match timestamps ncalls terr tfns tfmts t, fmts with
     | Some te, [f_creq; f_auth] =>
-      match (if sha_call_ok shacalls (b "body") (b "body?bodylen:0")
-             then hexify_str (sha256 (match body with Some x => x | None => [] end)) else None) with
-      | Some ch =>
-        let e0 := (b "content_sha256", ch) :: te ++ inputs in
-        match run_asprintf e0 f_creq with
-        | Some e1 =>
-          match call_sign e1 sargs with
-          | Some e2 =>
-            match run_asprintf e2 f_auth with
-            | Some e3 =>
-              match lookup e3 (b "authorization"), lookup e3 (b "datetime") with
-              | Some auth, Some dt => Some (ch, dt, auth)
-              | _, _ => None
+      match shacalls, hexcalls, dupcalls with
+      | [sh], [hx], [(o1, s1); (o2, s2)] =>
+        match sha_hex_ok sh hx (b "body") (b "body?bodylen:0") with
+        | Some hexname =>
+          match hexify_str (sha256 (match body with Some x => x | None => [] end)) with
+          | Some ch =>
+            let e0 := (hexname, ch) :: te ++ inputs in
+            match run_asprintf e0 f_creq with
+            | Some e1 =>
+              match call_sign e1 sargs with
+              | Some e2 =>
+                match run_asprintf e2 f_auth with
+                | Some e3 =>
+                  (* *x_amz_content_sha256 = strdup(s1); *x_amz_date = strdup(s2) *)
+                  if beq_bytes o1 (b "x_amz_content_sha256") && beq_bytes o2 (b "x_amz_date") then
+                    match lookup e3 s1, lookup e3 s2, lookup e3 (b "authorization") with
+                    | Some c, Some dt, Some auth => Some (c, dt, auth)
+                    | _, _, _ => None
+                    end
+                  else None
+                | None => None
+                end
+              | None => None
               end
             | None => None
             end
@@ -173,7 +192,7 @@ Section Hashes.
           end
         | None => None
         end
-      | None => None
+      | _, _, _ => None
       end
     | _, _ => None
     end.
@@ -182,7 +201,8 @@ Section Hashes.
              (body : option bytes) (t : Z) : option (bytes * bytes * bytes) :=
     headers_variant fmts_aws_sign_s3_headers signargs_aws_sign_s3_headers
                     time_calls_aws_sign_s3_headers time_err_aws_sign_s3_headers timefns_aws_sign_s3_headers
-                    strftime_aws_sign_s3_headers sha_calls_aws_sign_s3_headers
+                    strftime_aws_sign_s3_headers sha_calls_aws_sign_s3_headers hexify_calls_aws_sign_s3_headers
+                    strdup_calls_aws_sign_s3_headers
                     [(b "key_id", key_id); (b "key_secret", key_secret); (b "region", region);
                      (b "method", method); (b "bucket", bucket); (b "path", path)] body t.
 
@@ -190,7 +210,8 @@ Section Hashes.
              (body : option bytes) (t : Z) : option (bytes * bytes * bytes) :=
     headers_variant fmts_aws_sign_svc_headers signargs_aws_sign_svc_headers
                     time_calls_aws_sign_svc_headers time_err_aws_sign_svc_headers timefns_aws_sign_svc_headers
-                    strftime_aws_sign_svc_headers sha_calls_aws_sign_svc_headers
+                    strftime_aws_sign_svc_headers sha_calls_aws_sign_svc_headers hexify_calls_aws_sign_svc_headers
+                    strdup_calls_aws_sign_svc_headers
                     [(b "key_id", key_id); (b "key_secret", key_secret); (b "region", region);
                      (b "svc", svc)] body t.
 
@@ -198,7 +219,8 @@ Section Hashes.
              (body : option bytes) (t : Z) : option (bytes * bytes * bytes) :=
     headers_variant fmts_aws_sign_dynamodb_headers signargs_aws_sign_dynamodb_headers
                     time_calls_aws_sign_dynamodb_headers time_err_aws_sign_dynamodb_headers timefns_aws_sign_dynamodb_headers
-                    strftime_aws_sign_dynamodb_headers sha_calls_aws_sign_dynamodb_headers
+                    strftime_aws_sign_dynamodb_headers sha_calls_aws_sign_dynamodb_headers hexify_calls_aws_sign_dynamodb_headers
+                    strdup_calls_aws_sign_dynamodb_headers
                     [(b "key_id", key_id); (b "key_secret", key_secret); (b "region", region);
                      (b "op", op)] body t.
 
